@@ -89,6 +89,10 @@ pub struct WFrame {
     pub ch: u16,
     pub len: usize,
     pub dec: Decoded,
+    /// For a decoded method: bytes of its payload that its own encoding does not account
+    /// for (the codec stops reading when it has all arguments; surplus bytes mean that a
+    /// field was written wrongly, e.g. a short string longer than 255 bytes).
+    pub surplus: usize,
 }
 
 impl WFrame {
@@ -191,13 +195,23 @@ pub fn decode_frame(bytes: &[u8], off: usize) -> WFrame {
         },
         _ => Decoded::Undecodable,
     };
+    let surplus = match &dec {
+        Decoded::Method(m) => bytes.len().saturating_sub(enc_method(ch, m.clone()).len()),
+        _ => 0,
+    };
     WFrame {
         off,
         ty,
         ch,
         len: bytes.len(),
         dec,
+        surplus,
     }
+}
+
+/// The first method frame whose payload is longer than its own arguments account for.
+pub fn first_surplus(frames: &[WFrame]) -> Option<String> {
+    frames.iter().find(|f| f.surplus > 0).map(|f| format!("{} at offset {}: {} bytes of its payload are not part of the method's arguments (a field was written with a wrong length)", f.short(), f.off, f.surplus))
 }
 
 /// Result of splitting a complete client->server byte stream.
